@@ -168,6 +168,17 @@ def ast_mutants(p, rng, n):
     return out
 
 
+REFT = {"Zahl": ("Zahlen Referenz", "Zahlen Liste", "1, 2"), "Text": ("Text Referenz", "Text Liste", '"a", "b"'),
+        "Buchstabe": ("Buchstaben Referenz", "Buchstaben Liste", "'a', 'b'"), "Kommazahl": ("Kommazahlen Referenz", "Kommazahlen Liste", "1,5, 2,5"),
+        "Wahrheitswert": ("Wahrheitswert Referenz", "Wahrheitswert Liste", "wahr, falsch")}
+
+
+def _ref_call(P, listtype, vals, extra=""):
+    """a function with a `P Referenz` parameter called with an element of a list of type `listtype`"""
+    return (extra + "Die Funktion rf_%s mit dem Parameter r vom Typ %s, gibt nichts zurück, macht:\n\tSchreibe 1.\nUnd kann so benutzt werden:\n\t\"rf_%s <r>\"\n"
+            "Die %s rf_l ist eine Liste, die aus %s besteht.\nrf_%s (rf_l an der Stelle 1).\n" % (P, REFT[P][0], P, listtype, vals, P))
+
+
 def text_wellformed(src):
     """(kind, source) variants that stay well-formed: the explicit counterparts of the type-definition mutants"""
     TD = ("Wir definieren eine Hausnummer als eine Zahl.\nWir definieren eine Postleitzahl als eine Zahl.\nDie Hausnummer hn_ok ist 5 als Hausnummer.\n"
@@ -180,6 +191,9 @@ def text_wellformed(src):
                                                                "\tGib p als Hausnummer zurück.\nUnd kann so benutzt werden:\n\t\"gib_td <p>\"\nDie Hausnummer hn2 ist gib_td 4.\n"),
                           ("typedef-list", "Die Hausnummer Liste hl ist eine Liste, die aus hn_ok, (2 als Hausnummer) besteht.\n")]:
         out.append((kind, src + TD + snippet))
+    # an element of a list as argument for a Referenz parameter of the element type
+    for P in REFT:
+        out.append(("referenz-argument-element:" + P, src + _ref_call(P, REFT[P][1], REFT[P][2])))
     # the counterparts of the redeclaration mutants: the same declarations with two different names
     out.append(("names-foreach-index", src + "Für jede Zahl rd_e mit Index rd_i in eine Liste, die aus 10, 20 besteht, mache:\n\tSchreibe (rd_e plus rd_i).\n"))
     out.append(("names-fields", src + 'Wir nennen die Kombination aus\n\tder Zahl rd_a mit Standardwert 1,\n\tder Zahl rd_b mit Standardwert 2,\neinen Rdpaar, und erstellen sie so:\n\t"ein Rdpaar"\n'))
@@ -220,6 +234,15 @@ def text_mutants(src, rng):
     out.append(("redeclaration-field", src + 'Wir nennen die Kombination aus\n\tder Zahl rd_a mit Standardwert 1,\n\tder Zahl rd_a mit Standardwert 2,\neinen Rdpaar, und erstellen sie so:\n\t"ein Rdpaar"\n'))
     out.append(("redeclaration-parameter", src + "Die Funktion rd_fn mit den Parametern rd_p und rd_p vom Typ Zahl und Zahl, gibt eine Zahl zurück, macht:\n\tGib rd_p zurück.\n"
                                                  "Und kann so benutzt werden:\n\t\"rd_fn <rd_p> <rd_p>\"\n"))
+    # an element of a list of another element type (or of a type definition over the right one) as argument for a Referenz parameter
+    pairs = [(P, Q) for P in REFT for Q in REFT if P != Q]
+    k0 = sum(map(ord, src)) % len(pairs)
+    for d in range(3):
+        P, Q = pairs[(k0 + 7 * d) % len(pairs)]
+        out.append(("referenz-argument-element-of-wrong-list:%s:%s" % (P, Q), src + _ref_call(P, REFT[Q][1], REFT[Q][2])))
+    out.append(("referenz-argument-element-of-definition-list", src + _ref_call("Buchstabe", "Zeichen Liste", "('a' als Zeichen), ('b' als Zeichen)",
+                                                                               "Wir definieren ein Zeichen als einen Buchstaben.\n")))
+    out.append(("referenz-argument-element-of-wrong-list:Buchstabe:%s" % ("Zahl", "Text")[k0 % 2], src + _ref_call("Buchstabe", REFT[("Zahl", "Text")[k0 % 2]][1], REFT[("Zahl", "Text")[k0 % 2]][2])))
     # a Konstante is assigned to / passed as Referenz / element-assigned
     out.append(("assign-to-konstante", src + "Die Konstante KONST_A ist 5.\nSpeichere 6 in KONST_A.\n"))
     out.append(("compound-assign-to-konstante", src + "Die Konstante KONST_B ist 5.\nErhöhe KONST_B um 1.\n"))
